@@ -596,6 +596,8 @@ pub struct HandlerProgram {
     pub force_close: bool,
     /// `ResponseBuilder::keep_alive()`: the handler asks for a persistent connection
     pub force_keep_alive: bool,
+    /// the service call resolves to `Err(e)` and this response is what `e` converts into
+    pub as_service_error: bool,
     /// `ResponseBuilder::no_chunking(len)`: Content-Length set by the handler, body written raw
     pub no_chunking: Option<u64>,
     /// the handler additionally waits until this virtual time before doing anything
@@ -613,6 +615,7 @@ impl HandlerProgram {
             fail: false,
             force_close: false,
             force_keep_alive: false,
+            as_service_error: false,
             no_chunking: None,
             pend_until_ms: None,
         }
@@ -631,6 +634,10 @@ impl HandlerProgram {
     }
     pub fn keep_alive(mut self) -> Self {
         self.force_keep_alive = true;
+        self
+    }
+    pub fn as_error(mut self) -> Self {
+        self.as_service_error = true;
         self
     }
     pub fn failing(mut self) -> Self {
